@@ -260,6 +260,8 @@ func genFlatten(r *gen.R, validOnly bool) (mon.OpReq, Expect, bool) {
 	axis := r.Range(-rank-2, rank+2)
 	if validOnly {
 		axis = r.Range(-rank, rank)
+	} else if r.Chance(0.03) {
+		axis = int(extremeAxis(r))
 	}
 	req := mon.OpReq{Op: "Flatten", Inputs: []*ref.T{x}}
 	if axis != 1 || r.Bool() {
@@ -318,6 +320,9 @@ func genSqueeze(r *gen.R, validOnly bool) (mon.OpReq, Expect, bool) {
 		switch r.Intn(4) {
 		case 0: // out of range
 			axes = append(axes, int64(r.PickInt(rank, rank+1, -rank-1, -rank-2, 7)))
+			if r.Chance(0.15) {
+				axes[len(axes)-1] = extremeAxis(r)
+			}
 		case 1: // literal duplicate
 			if len(axes) > 0 {
 				axes = append(axes, axes[r.Intn(len(axes))])
@@ -365,6 +370,9 @@ func genUnsqueeze(r *gen.R, validOnly bool) (mon.OpReq, Expect, bool) {
 		switch r.Intn(3) {
 		case 0:
 			axes[r.Intn(k)] = int64(r.PickInt(R, R+1, -R-1, -R-3))
+			if r.Chance(0.15) {
+				axes[r.Intn(k)] = extremeAxis(r)
+			}
 		case 1:
 			axes = append(axes, axes[r.Intn(k)])
 		case 2:
